@@ -958,7 +958,13 @@ func makeHTTPTypeRecursive(att *expr.AttributeExpr, seen map[string]struct{}) *e
 					att.Validation.Merge(v)
 				}
 			}
-			att.DefaultValue = dt.Attribute().DefaultValue
+			if att.DefaultValue == nil {
+				att.DefaultValue = dt.Attribute().DefaultValue
+			}
+			if _, ok := att.Type.(expr.UserType); ok {
+				// the aliased type is itself an alias
+				return makeHTTPTypeRecursive(att, seen)
+			}
 		}
 		if _, ok := seen[dt.ID()]; ok {
 			return att
